@@ -486,3 +486,92 @@ pub mod page_addr {
         ElidedChildren::from_bytes(bits.to_le_bytes()).is_elided(child)
     }
 }
+
+// H10 — how one merkle update is split across the commit workers and how the session witness is
+// assembled (`merkle::Updater::update_and_prove`, `merkle::worker::RangeUpdater`,
+// `merkle::UpdateHandle::join`): a process-global recorder.  Nothing is recorded unless the harness
+// switched it on with `split_trace::begin()`; the store never reads it.
+
+/// Trace of the splitting / assembly of merkle updates.
+pub mod split_trace {
+    use std::sync::Mutex;
+
+    /// What was pushed to the root-page pending list.
+    #[derive(Clone, Debug, PartialEq, Eq)]
+    pub enum Pending {
+        /// A child-page root reported by a worker.
+        Node([u8; 32]),
+        /// A terminal of the root page with the operations `[range_start, range_end)` below it.
+        SubTrie {
+            range_start: usize,
+            range_end: usize,
+            has_prev_terminal: bool,
+        },
+    }
+
+    /// One recorded event.
+    #[derive(Clone, Debug, PartialEq, Eq)]
+    pub enum Event {
+        /// `RangeUpdater::new`: the range of the sorted operations this worker iterates.
+        Worker {
+            shard: usize,
+            range_start: usize,
+            range_end: usize,
+        },
+        /// `RangeUpdater::handle_completion`: one batch (operations under one terminal).
+        Batch {
+            shard: usize,
+            start: usize,
+            next: usize,
+            position: Vec<bool>,
+            owned: bool,
+            non_exclusive: bool,
+            has_writes: bool,
+        },
+        /// End of `RangeUpdater::update`: what the worker hands to `join` and to the root page.
+        WorkerDone {
+            shard: usize,
+            witnessed_start: Option<usize>,
+            witnessed_batches: Option<Vec<usize>>,
+            child_roots: Vec<(Vec<bool>, [u8; 32])>,
+        },
+        /// The sorted pending list the last worker applies to the root page, and the new root.
+        RootPage {
+            shard: usize,
+            pending: Vec<(Vec<bool>, Pending)>,
+            new_root: [u8; 32],
+        },
+        /// `UpdateHandle::join`: an output was received (in completion order).
+        Joined {
+            shard: Option<usize>,
+            witnessed_start: Option<usize>,
+            paths: Option<usize>,
+        },
+    }
+
+    static TRACE: Mutex<Option<Vec<Event>>> = Mutex::new(None);
+
+    /// Start recording (drops whatever was recorded before).
+    pub fn begin() {
+        *TRACE.lock().unwrap_or_else(|e| e.into_inner()) = Some(Vec::new());
+    }
+
+    /// Stop recording and return the events.
+    pub fn take() -> Vec<Event> {
+        TRACE
+            .lock()
+            .unwrap_or_else(|e| e.into_inner())
+            .take()
+            .unwrap_or_default()
+    }
+
+    pub(crate) fn push(event: Event) {
+        if let Some(events) = TRACE.lock().unwrap_or_else(|e| e.into_inner()).as_mut() {
+            events.push(event);
+        }
+    }
+
+    pub(crate) fn bits(position: &nomt_core::trie_pos::TriePosition) -> Vec<bool> {
+        position.path().iter().by_vals().collect()
+    }
+}
